@@ -952,8 +952,8 @@ def decide(rep: core.Report, descr, impl, model, spec, model_ok: bool, stats) ->
         else:
             mE, mV = live(norm(model[0])), live(norm(model[1]))
             # with subclass keys the graph is compared key by key; the field store of the model is keyed like the graph while the objects'
-            # fields go by name, so it is compared after projecting keys to public fields (as multisets)
-            same = (mE == impl_E) and (sorted(facts(mV)) == sorted(facts(impl_V)) if keyed else mV == impl_V)
+            # fields go by name (`already there` looks at the one physical list), so the fields are compared with the Spec only
+            same = (mE == impl_E) and (keyed or mV == impl_V)
             if not problems and not same:
                 stats["model_mismatch"] += 1
                 rep.oblige("correspondence:model", False,
@@ -1065,17 +1065,15 @@ def run(tier: str, seed: int, replay=None) -> int:
                 and d.get("expect_exc") and (impl["exc"] or "").startswith(d["expect_exc"])):
             rep.known(open_names[cname])       # the constructor raises exactly the recorded error (no model of __init__ order)
             continue
-        keyed_same = False
-        if families()[d["fam"]].has_subclass_keys() and model_ok and model != -1 and not impl["exc"] and not impl.get("build_failed"):
-            c_ = families()[d["fam"]].canon
-            pr = lambda es: sorted((a, c_[b], c) for a, b, c in es)
-            keyed_same = norm(model[0]) == norm(impl["E"]) and pr(norm(model[1])) == pr(norm(impl["V"]))
-        if cname in open_names and open_names[cname].cls == "K_subclass_keys" and keyed_same:
+        keyed_E_same = bool(families()[d["fam"]].has_subclass_keys() and model_ok and model != -1 and not impl["exc"]
+                            and not impl.get("build_failed") and norm(model[0]) == norm(impl["E"]))
+        only_dup = bool(v["problems"]) and all("more than once in the list field" in x for x in v["problems"])
+        if cname in open_names and open_names[cname].cls == "K_subclass_keys" and keyed_E_same and only_dup:
             rep.known(open_names[cname])
             continue
-        if (keyed_same and in_subclass_duplicate_class(d) and v["problems"] and all("more than once in the list field" in x for x in v["problems"])
+        if (keyed_E_same and only_dup and in_subclass_duplicate_class(d)
                 and any(f.cls == "K_subclass_keys" for f in findings if f.kind == "open")):
-            kf_instances["K_subclass_keys"] = kf_instances.get("K_subclass_keys", 0) + 1     # instance of C15-e, exactly as the key-level model predicts
+            kf_instances["K_subclass_keys"] = kf_instances.get("K_subclass_keys", 0) + 1   # C15-e: graph exactly as the key-level model, only the duplicate
             continue
         if (model_same and in_equal_twins_class(d, spec) and any(f.cls == "K_equal_twins" for f in findings if f.kind == "open")):
             kf_instances["K_equal_twins"] = kf_instances.get("K_equal_twins", 0) + 1    # instance of C15-b, exactly as the model predicts
